@@ -13,8 +13,21 @@ def run(run):
             continue
         extra = {'objects': pc.objects, 'properties': pc.properties, 'bools': pc.bools}
         w = pc.n
+        import concepts
+        variant = run.evaluations % 3
         with guard(run, 'iteration order / index / dindex / neighbor order', [pc.line, 'lattice']):
-            L = pc.ctx.lattice
+            if variant == 0:
+                L = pc.ctx.lattice
+            else:
+                dd = pc.ctx.todict()
+                if variant == 2:
+                    def shuf(t):
+                        t = list(t)
+                        run.rng.shuffle(t)
+                        return tuple(t)
+                    dd = dict(dd, lattice=[tuple(shuf(x) for x in entry) for entry in dd['lattice']])
+                L = concepts.Context.fromdict(dd, raw=(variant == 2)).lattice
+                run.count('lattice loaded from dict' + (' raw with shuffled tuples' if variant == 2 else ''))
             cs = list(L)
             E = [pc.omask(c.extent) for c in cs]
             idx = [c.index for c in cs]
